@@ -67,6 +67,9 @@ type FuncContract struct {
 	StructuralOnly  bool
 	Derived         []string
 	Approx          []string
+	Fresh           []string
+	UseLemmas       []string
+	DynTypes        map[string]string // result name -> concrete struct type name
 }
 
 type SpecFunc struct {
@@ -74,12 +77,27 @@ type SpecFunc struct {
 	Params [][2]string // name, type
 	Ret    string
 	Body   ast.Expr // nil: uninterpreted
+	Opaque bool     // kept as a function symbol with a defining axiom (usable as a quantifier trigger)
 	Src    string
 	File   string
 	Line   int
 }
 
+// Induct: a lemma proved by induction on an integer variable. Vars are the
+// other universally quantified variables (ints, reals or sequences).
+type Induct struct {
+	Label string
+	Props []string
+	Vars  [][2]string // name, type
+	N     string
+	Body  ast.Expr
+	Src   string
+	File  string
+	Line  int
+}
+
 type Contracts struct {
+	Inducts []*Induct
 	Funcs  map[string]*FuncContract // key: pkgpath + "." + name
 	Ifaces map[string]*FuncContract // key: method name (ND family), e.g. "Get"
 	Specs  map[string]*SpecFunc
@@ -136,9 +154,14 @@ var funcLineRecvRe = regexp.MustCompile(`^(func|iface)\s+(\(\*?[A-Za-z0-9_{}]+\)
 // package directories (relative import path -> dir).
 func loadContracts(pkgDirs map[string]string) *Contracts {
 	cs := &Contracts{Funcs: map[string]*FuncContract{}, Ifaces: map[string]*FuncContract{}, Specs: map[string]*SpecFunc{}}
+	seen := map[string]bool{}
 	for pkgPath, dir := range pkgDirs {
 		matches, _ := filepath.Glob(filepath.Join(dir, "verif_contracts*.go"))
 		for _, f := range matches {
+			if seen[f] {
+				continue
+			}
+			seen[f] = true
 			cs.Files = append(cs.Files, f)
 			parseContractFile(cs, pkgPath, f)
 		}
@@ -175,9 +198,43 @@ func parseContractFile(cs *Contracts, pkgPath, file string) {
 		}
 		lines = append(lines, ln{t, i + 1})
 	}
+	// {T} expansion: a "types {T} = A,B,C" directive makes every following func
+	// block whose header mentions {T} one block per listed type
+	var typeList []string
+	var expanded []ln
+	for i := 0; i < len(lines); i++ {
+		l := lines[i]
+		if strings.HasPrefix(l.s, "types ") {
+			if j := strings.Index(l.s, "="); j > 0 {
+				typeList = splitNames(l.s[j+1:])
+			}
+			continue
+		}
+		if (strings.HasPrefix(l.s, "func ") || strings.HasPrefix(l.s, "iface ")) && (strings.Contains(l.s, "{T}") || strings.Contains(l.s, "{t}")) {
+			j := i + 1
+			for j < len(lines) {
+				w := lines[j].s
+				if strings.HasPrefix(w, "func ") || strings.HasPrefix(w, "iface ") || strings.HasPrefix(w, "spec ") || strings.HasPrefix(w, "specu ") || strings.HasPrefix(w, "induct ") || strings.HasPrefix(w, "axiom ") || strings.HasPrefix(w, "lemma ") || strings.HasPrefix(w, "types ") {
+					break
+				}
+				j++
+			}
+			for _, ty := range typeList {
+				for _, bl := range lines[i:j] {
+					lower := strings.ToLower(ty)
+					if ty == "ArrayType" {
+						lower = ty // the genny template type keeps its spelling
+					}
+					expanded = append(expanded, ln{strings.ReplaceAll(strings.ReplaceAll(bl.s, "{T}", ty), "{t}", lower), bl.n})
+				}
+			}
+			i = j - 1
+			continue
+		}
+		expanded = append(expanded, l)
+	}
+	lines = expanded
 	var cur *FuncContract
-	var typeSubst [][2]string // {T} expansion handled by caller duplicating blocks
-	_ = typeSubst
 	for _, l := range lines {
 		s := l.s
 		word := s
@@ -186,10 +243,41 @@ func parseContractFile(cs *Contracts, pkgPath, file string) {
 			word, rest = s[:i], strings.TrimSpace(s[i+1:])
 		}
 		switch word {
-		case "spec":
+		case "spec", "specu":
 			cur = nil
 			sp := parseSpec(rest, file, l.n)
+			sp.Opaque = word == "specu"
 			cs.Specs[sp.Name] = sp
+		case "induct":
+			// induct [label] (a []int, b []int) n : P(n)
+			cur = nil
+			label, props, r := parseLabel(rest)
+			i := strings.Index(r, "(")
+			j := strings.Index(r, ")")
+			k := strings.Index(r, ":")
+			if i != 0 || j < 0 || k < j {
+				fatalf("%s:%d: bad induct directive", file, l.n)
+			}
+			ind := &Induct{Label: label, Props: props, File: file, Line: l.n}
+			for _, p := range splitNames(r[i+1 : j]) {
+				f := strings.Fields(p)
+				if len(f) != 2 {
+					fatalf("%s:%d: bad induct variable %q", file, l.n, p)
+				}
+				ind.Vars = append(ind.Vars, [2]string{f[0], f[1]})
+			}
+			ind.N = strings.TrimSpace(r[j+1 : k])
+			ind.Src = strings.TrimSpace(r[k+1:])
+			ind.Body = parseExprSrc(ind.Src, file, l.n)
+			dup := false
+			for _, x := range cs.Inducts {
+				if x.Label == ind.Label {
+					dup = true
+				}
+			}
+			if !dup {
+				cs.Inducts = append(cs.Inducts, ind)
+			}
 		case "axiom", "lemma":
 			cur = nil
 			label, props, r := parseLabel(rest)
@@ -300,6 +388,22 @@ func parseFuncDirective(fc *FuncContract, word, rest, file string, line int) {
 		if strings.TrimSpace(rest) != "none" {
 			fc.States = append(fc.States, splitNames(rest)...)
 		}
+	case "dyntype":
+		// dyntype r nd{t}: the dynamic type of interface result r is *nd{t}
+		f := strings.Fields(rest)
+		if len(f) != 2 {
+			fatalf("%s:%d: bad dyntype", file, line)
+		}
+		if fc.DynTypes == nil {
+			fc.DynTypes = map[string]string{}
+		}
+		fc.DynTypes[f[0]] = f[1]
+	case "uses":
+		// uses lemma-label, ...: make the conclusion of an induction lemma available
+		fc.UseLemmas = append(fc.UseLemmas, splitNames(rest)...)
+	case "fresh":
+		// fresh r: the named result is a newly allocated object
+		fc.Fresh = append(fc.Fresh, splitNames(rest)...)
 	case "approx":
 		// approx NAME: carried only as a starting guess of an iterative solver
 		fc.Approx = append(fc.Approx, splitNames(rest)...)
